@@ -301,6 +301,8 @@ package xmpp
 //@   ensures [C06.once] plainPacket(p) && !old(noRoute(r, p)) ==> count(HandlePacket) == old(count(HandlePacket)) + 1 && last(HandlePacket, 1) == s && last(HandlePacket, 2) == p && count(Send) == old(count(Send)) && count(SendRaw) == old(count(SendRaw))
 //@   ensures [C06.once.first] plainPacket(p) && !old(noRoute(r, p)) ==> exists(i, 0, old(len(r.routes)), old(firstAt(r, p, i)) && last(HandlePacket, 0) == old(r.routes[i].handler))
 //@   ensures [C06.iqerr] plainPacket(p) && old(noRoute(r, p)) && old(isIQRequest(p)) ==> count(HandlePacket) == old(count(HandlePacket)) && count(Send) == old(count(Send)) + 1 && last(Send, 0) == s && last(Send, 1) == p && count(SendAttrs) == old(count(SendAttrs)) + 1 && last(SendAttrs, 0) == "error" && last(SendAttrs, 1) == old(pkId(p)) && last(SendAttrs, 2) == old(pkTo(p)) && last(SendAttrs, 3) == old(pkFrom(p)) && last(SendAttrs, 4) == "feature-not-implemented"
+//@   ensures [C06.once.answer] typeof(p) == stanza.SMAnswer && !old(noRoute(r, p)) ==> count(HandlePacket) == old(count(HandlePacket)) + 1 && last(HandlePacket, 1) == s && last(HandlePacket, 2) == p && exists(i, 0, old(len(r.routes)), old(firstAt(r, p, i)) && last(HandlePacket, 0) == old(r.routes[i].handler))
+//@   ensures [C06.quiet.answer] typeof(p) == stanza.SMAnswer && old(noRoute(r, p)) ==> count(HandlePacket) == old(count(HandlePacket))
 //@   ensures [C06.quiet] plainPacket(p) && old(noRoute(r, p)) && !old(isIQRequest(p)) ==> count(HandlePacket) == old(count(HandlePacket)) && count(Send) == old(count(Send)) && count(SendRaw) == old(count(SendRaw))
 //@   requires wfQueue(senderQueue(s))
 //@   ensures wfQueue(senderQueue(s)) && backingOK(senderQueue(s)) && r.IQResultRoutes == old(r.IQResultRoutes)
@@ -794,6 +796,7 @@ package xmpp
 //@   ensures [C03.success.resumed.order] (err == nil && count(ResumedOK) > old(count(ResumedOK))) ==> atlast(Restarted) < atlast(ResumedOK)
 //@   ensures [C11.resumed.identity] (err == nil && count(ResumedOK) > old(count(ResumedOK)) && old(c.Session) != nil) ==> res == old(c.Session) && res.BindJid == old(c.Session.BindJid) && res.SMState.Id == old(c.Session.SMState.Id) && res.SMState.UnAckQueue == old(c.Session.SMState.UnAckQueue) && res.SMState.Inbound == old(c.Session.SMState.Inbound)
 //@   ensures [C03.failure] err != nil ==> typeof(err) == ConnError || res != nil
+//@   ensures [C09.enable.last] (err == nil && count(SMEnabledOK) > old(count(SMEnabledOK))) ==> (count(PacketRead) > old(count(PacketRead)) ==> atlast(PacketRead) < atlast(SMEnabledOK)) && (count(Decoded) > old(count(Decoded)) ==> atlast(Decoded) < atlast(SMEnabledOK)) && (count(DecodedElement) > old(count(DecodedElement)) ==> atlast(DecodedElement) < atlast(SMEnabledOK))
 //@   ensures res != nil ==> res.transport == c.transport && (old(c.Session) != nil ==> res == old(c.Session)) && (old(c.Session) == nil ==> fresh(res))
 //@   assigns c.Session.err, c.Session.Features, c.Session.TlsEnabled, c.Session.StreamId, c.Session.SMState, c.Session.BindJid, c.Session.lastPacketId, c.config.StreamManagementEnable
 //@   emits Write, Decoded, DecodedElement, StartTLSCalled, SecureAsked, PacketRead, StanzaRead, AckReqRead, StreamErrRead, TokenRead, Marshaled, StreamStarted, TlsDone, AuthConfirmed, Restarted, ResumedOK, Bound, SessionOpened, SMEnabledOK
